@@ -21,7 +21,7 @@ ID = "C13"
 LEVEL = "exploration"
 TIERS = {
     "quick": {"shards": 128, "examples": 20, "det_shards": 2},
-    "thorough": {"shards": 1024, "examples": 50, "det_shards": 8},
+    "thorough": {"shards": 2048, "examples": 50, "det_shards": 8},
 }
 RULE = ("case = (world, variant): a generated directory tree with settings (recursion, auto-exclusion, prefix and its "
         "source, 0-3 exclude patterns, output placement) run under one listing schedule and, in fault shards, one I/O "
